@@ -1469,6 +1469,12 @@ func scenPromoteIdle(e *engineA) error {
 		e.cl.fsmOp(1, l, "update")
 	}
 	quiet := func() {
+		// the load that ran during the change stops; whatever the leader told
+		// its replications while it was busy has to be right now that nothing
+		// else will be sent
+		e.stopLoad()
+		e.stopClients = make(chan struct{})
+		e.sleepHB(0.5, 1)
 		e.rc.emit(&ev.Rec{K: "quiet-begin"})
 		e.sleepHB(5, 8)
 		e.rc.emit(&ev.Rec{K: "quiet-end"})
@@ -1480,6 +1486,12 @@ func scenPromoteIdle(e *engineA) error {
 		cur := e.cl.leader()
 		if cur == nil {
 			break
+		}
+		if e.rng.Intn(3) != 0 {
+			// the change happens under write load (the leader tells its
+			// replications about new entries all the time)
+			e.startClients(6, map[string]int{"update": 1})
+			e.sleepHB(1, 2)
 		}
 		switch e.rng.Intn(3) {
 		case 0: // a new node joins and is promoted
